@@ -102,8 +102,8 @@ MultiOf(St, g) == {p \in Pods : Exists(St, p) /\ IsMulti(p) /\ HasLab(St, p, g)}
 \* groups seen by SyncForNode (pods on the node with the plain label; reservation pods sit on the node)
 NodeGroups(St) == {g \in Groups : St.res[g].n > 0 \/ \E p \in PlainOf(St, g) : St.pods[p].node = NodeN}
 AllGroups(St) == {g \in Groups : St.res[g].n > 0 \/ PlainOf(St, g) # {}}
-\* GetGpuGroups(pod): only pods with the plain label have groups (a multi-fraction pod has none)
-HandlerGroups(St, p) == IF UsesPlainLabel(p) THEN {g \in Groups : HasLab(St, p, g)} ELSE {}
+\* GetGpuGroups(pod): the plain label and every multi-fraction label of the pod
+HandlerGroups(St, p) == {g \in Groups : HasLab(St, p, g)}
 
 PodSeq(Set) == \* pods in name order
   LET F[T \in SUBSET Set] == IF T = {} THEN <<>> ELSE LET m == CHOOSE x \in T : \A y \in T : x <= y IN <<m>> \o F[T \ {m}]
